@@ -1000,12 +1000,45 @@ func (w *World) foldInstances(apps []foldApp, depth int) []string {
 			out = append(out, fmt.Sprintf("(assert (and (=> (<= %s 0) (= %s %s)) (=> (>= %s 1) (and (= %s %s) (<= 0 %s) (<= %s 255)))))",
 				a.N.S, self.S, ini.S, a.N.S, self.S, stp.S, c.S, c.S))
 		}()
+		deps := map[string]bool{a.Name: true}
+		exprIdents(f.Step.E, deps)
 		for _, ff := range w.contracts.Folds {
-			unfold(foldApp{ff.Name, a.Arr, a.Off, nm1}, d-1)
+			if deps[ff.Name] {
+				unfold(foldApp{ff.Name, a.Arr, a.Off, nm1}, d-1)
+			}
 		}
 	}
 	for _, a := range apps {
 		unfold(a, depth)
 	}
 	return out
+}
+
+// exprIdents collects the identifiers that occur in a contract expression.
+func exprIdents(e Expr, out map[string]bool) {
+	switch x := e.(type) {
+	case *EIdent:
+		out[x.Name] = true
+	case *ECall:
+		for _, a := range x.Args {
+			exprIdents(a, out)
+		}
+	case *EIndex:
+		exprIdents(x.X, out)
+		exprIdents(x.I, out)
+	case *EField:
+		exprIdents(x.X, out)
+	case *EUn:
+		exprIdents(x.X, out)
+	case *EBin:
+		exprIdents(x.L, out)
+		exprIdents(x.R, out)
+	case *EQuant:
+		exprIdents(x.Lo, out)
+		exprIdents(x.Hi, out)
+		exprIdents(x.Body, out)
+	case *ELet:
+		exprIdents(x.Val, out)
+		exprIdents(x.Body, out)
+	}
 }
